@@ -215,6 +215,19 @@ LEMMAS = {
                       "ensures": ["implies(0 <= a and a < len(R) and 0 <= b and b < len(R) and a != b, "
                                   "apart(lo5(R, a), hi5(R, a), lo5(R, b), hi5(R, b)) and apart(lo5(R, a), hi5(R, a), lo3(R, b), hi3(R, b)) "
                                   "and apart(lo3(R, a), hi3(R, a), lo3(R, b), hi3(R, b)))"]},
+    # the ghost-free reading of the decoder's postcondition follows from the one stated with the inverse strand map G
+    "decoded_plain": {"kind": "smt", "params": ["P", "R", "G", "N"],
+                      "shapes": ["list[tuple[int,int]]", "list[tuple[int,int,int]]", "list[int]", "int"],
+                      "requires": ["regions_ok(R, N)", "region_map(G, R, N, len(R))", "decoded_g(P, R, G, N)"],
+                      "steps": [
+                          "forall lo, hi | assert implies(noclose_g(R, G, lo, hi) and 0 <= lo and hi <= N, noclose(R, lo, hi))",
+                          "forall q | assert implies(0 <= q and q < len(P), P[q][1] < N and 0 <= G[P[q][1]] and G[P[q][1]] < len(R) and on3(R, G[P[q][1]], P[q][1]) and P[q][0] == lo5(R, G[P[q][1]]) + (hi3(R, G[P[q][1]]) - P[q][1]))",
+                      ],
+                      "ensures": ["forall(lambda q: implies(0 <= q and q < len(P), P[q][1] < N and exists(lambda a: 0 <= a and a < len(R) and on3(R, a, P[q][1]) and P[q][0] == lo5(R, a) + (hi3(R, a) - P[q][1]))))",
+                                  "forall(lambda q: implies(0 <= q and q + 1 < len(P), P[q][1] < P[q + 1][1] and noclose(R, P[q][1] + 1, P[q + 1][1])))",
+                                  "implies(len(P) > 0, noclose(R, 0, P[0][1]) and noclose(R, P[len(P) - 1][1] + 1, N))",
+                                  "implies(len(P) == 0, noclose(R, 0, N))",
+                                  "decoded(P, R, N)"]},
     "FC_definition": {"kind": "definition", "params": ["R"], "ensures": ["FC_def(R)"]},
     "levels30_definition": {"kind": "definition", "params": ["s", "R"],
                             "ensures": ["implies(levels30(s), forall(lambda a: implies(0 <= a and a < len(R), FC(a) < 30)))"]},
@@ -283,7 +296,7 @@ class db_from_string:
     params = {"sequence": "cstr", "structure": "cstr"}
     requires = []
     returns = "DotBracket"
-    raises = {"ValueError": "len(sequence) != len(structure)"}
+    raises = {"ValueError": "len(sequence) != len(structure)", "IndexError": "?"}
     ensures = ["fresh(result)", "result.sequence == sequence", "result.structure == structure"]
     modifies = []
 
@@ -319,75 +332,157 @@ def partner(R, a, x):
 
 
 @spec
+def on5(R, a, x):
+    return lo5(R, a) <= x and x <= hi5(R, a)
+
+
+@spec
+def on3(R, a, x):
+    return lo3(R, a) <= x and x <= hi3(R, a)
+
+
+@spec
+def region_map(G, R, N, upto):
+    """ghost inverse of the strands: G[x] is the region (< upto) whose 5' or 3' strand holds position x, -1 if none"""
+    return (len(G) == N
+            and forall(lambda x: implies(0 <= x and x < N, G[x] == -1 or (0 <= G[x] and G[x] < upto and on_strand(R, G[x], x))))
+            and forall(lambda a, x: implies(0 <= a and a < upto and 0 <= x and x < N and on_strand(R, a, x), G[x] == a)))
+
+
+@spec
+def painted_g(s, R, O, G):
+    """the text s, position by position: '.' off the strands, OPEN / CLOSE of the region's level on its 5' / 3' strand"""
+    return forall(lambda x: implies(0 <= x and x < len(s),
+                                    s[x] == ite(G[x] == -1, '.', ite(on5(R, G[x], x), OPEN[O[G[x]]], CLOSE[O[G[x]]]))))
+
+
+@spec
+def noclose_g(R, G, lo, hi):
+    """no position in [lo, hi) lies on a 3' strand"""
+    return forall(lambda y: implies(lo <= y and y < hi and 0 <= y and y < len(G), not (G[y] >= 0 and on3(R, G[y], y))))
+
+
+@spec
+def decoded_g(P, R, G, upto):
+    """P lists exactly the pairs (5' position, 3' position) of the regions whose 3' position is below `upto`, by increasing 3' position"""
+    return (forall(lambda q: implies(0 <= q and q < len(P),
+                                     0 <= P[q][1] and P[q][1] < upto and G[P[q][1]] >= 0 and on3(R, G[P[q][1]], P[q][1])
+                                     and P[q][0] == lo5(R, G[P[q][1]]) + (hi3(R, G[P[q][1]]) - P[q][1])))
+            and forall(lambda q: implies(0 <= q and q + 1 < len(P), P[q][1] < P[q + 1][1] and noclose_g(R, G, P[q][1] + 1, P[q + 1][1])))
+            and implies(len(P) > 0, noclose_g(R, G, 0, P[0][1]) and noclose_g(R, G, P[len(P) - 1][1] + 1, upto))
+            and implies(len(P) == 0, noclose_g(R, G, 0, upto)))
+
+
+@spec
 def noclose(R, lo, hi):
     """no position in [lo, hi) lies on the 3' strand of a region"""
-    return forall(lambda y, a: implies(lo <= y and y < hi and 0 <= a and a < len(R), not (lo3(R, a) <= y and y <= hi3(R, a))))
+    return forall(lambda y, a: implies(lo <= y and y < hi and 0 <= a and a < len(R), not on3(R, a, y)))
 
 
 @spec
 def decoded(P, R, upto):
-    """P lists exactly the pairs of the regions R whose 3' end lies below `upto`, by increasing 3' position"""
+    """(statement without the ghost map) P lists exactly the pairs of the regions R, by increasing 3' position"""
     return (forall(lambda q: implies(0 <= q and q < len(P),
-                                     P[q][1] < upto and exists(lambda a: 0 <= a and a < len(R) and lo3(R, a) <= P[q][1] and P[q][1] <= hi3(R, a)
+                                     P[q][1] < upto and exists(lambda a: 0 <= a and a < len(R) and on3(R, a, P[q][1])
                                                                and P[q][0] == lo5(R, a) + (hi3(R, a) - P[q][1]))))
             and forall(lambda q: implies(0 <= q and q + 1 < len(P), P[q][1] < P[q + 1][1] and noclose(R, P[q][1] + 1, P[q + 1][1])))
             and implies(len(P) > 0, noclose(R, 0, P[0][1]) and noclose(R, P[len(P) - 1][1] + 1, upto))
             and implies(len(P) == 0, noclose(R, 0, upto)))
 
 
+PAINTED_REQ = ["regions_ok(R, len(self.structure))", "strands_disjoint(R)", "len(O) >= len(R)", "proper(R, O)",
+               "region_map(G, R, len(self.structure), len(R))", "painted_g(self.structure, R, O, G)"]
+
+
 class db_post_init_painted:
-    """C01 decoder on a text painted from a proper level assignment (ghost R, O): never pops an empty stack and yields
-    exactly the pairs of the regions"""
+    """C01 decoder on a text painted from a proper level assignment (ghost: regions R, levels O, inverse strand map G):
+    never pops an empty stack and yields exactly the pairs of the regions"""
     target = "DotBracket.__post_init__"
     params = {"self": "DotBracket"}
-    ghost_params = {"R": "list[tuple[int,int,int]]", "O": "list[int]"}
-    requires = ["regions_ok(R, len(self.structure))", "strands_disjoint(R)", "len(O) >= len(R)", "proper(R, O)",
-                "painted(self.structure, R, O, len(R))"]
+    ghost_params = {"R": "list[tuple[int,int,int]]", "O": "list[int]", "G": "list[int]"}
+    requires = PAINTED_REQ
     raises = []
-    ensures = ["decoded(self.pairs, R, len(self.structure))"]
+    ensures = ["decoded_g(self.pairs, R, G, len(self.structure))"]
     ensures_labels = {0: "decodes-to-the-regions-pairs"}
     modifies = ["DotBracket.pairs@self"]
     locals = {"begins": "dict[char,list[int]]", "matches": "dict[char,char]"}
     loops = {0: {"touches": {"DotBracket.pairs": ["self"]}, "inv": [
-        "len(self.pairs) >= 0",
+        "len(self.pairs) >= 0 and len(pos) == len(self.structure)",
         "forall(lambda ch: implies(ch in OPEN, ch in begins and len(begins[ch]) >= 0), sorts={'ch': 'char'})",
         # the stack of bracket type ch holds, in increasing order, exactly the opened positions of that type whose partner is still ahead
-        "forall(lambda ch, u: implies(ch in OPEN and 0 <= u and u < len(begins[ch]), 0 <= begins[ch][u] and begins[ch][u] < i and exists(lambda a: 0 <= a and a < len(R) and ch == OPEN[O[a]] and lo5(R, a) <= begins[ch][u] and begins[ch][u] <= hi5(R, a) and partner(R, a, begins[ch][u]) >= i)), sorts={'ch': 'char'})",
+        "forall(lambda ch, u: implies(ch in OPEN and 0 <= u and u < len(begins[ch]), 0 <= begins[ch][u] and begins[ch][u] < i and G[begins[ch][u]] >= 0 and on5(R, G[begins[ch][u]], begins[ch][u]) and ch == OPEN[O[G[begins[ch][u]]]] and partner(R, G[begins[ch][u]], begins[ch][u]) >= i and pos[begins[ch][u]] == u), sorts={'ch': 'char'})",
         "forall(lambda ch, u, v: implies(ch in OPEN and 0 <= u and u < v and v < len(begins[ch]), begins[ch][u] < begins[ch][v]), sorts={'ch': 'char'})",
-        "forall(lambda a, x: implies(0 <= a and a < len(R) and lo5(R, a) <= x and x <= hi5(R, a) and x < i and partner(R, a, x) >= i, exists(lambda u: 0 <= u and u < len(begins[OPEN[O[a]]]) and begins[OPEN[O[a]]][u] == x)))",
-        "decoded(self.pairs, R, i)"]}}
+        "forall(lambda x: implies(0 <= x and x < i and G[x] >= 0 and on5(R, G[x], x) and partner(R, G[x], x) >= i, 0 <= pos[x] and pos[x] < len(begins[OPEN[O[G[x]]]]) and begins[OPEN[O[G[x]]]][pos[x]] == x))",
+        "decoded_g(self.pairs, R, G, i)"]}}
+    ghost = [
+        {"when": "after", "at": "self.pairs = []", "label": "pos0", "do": ["let pos = fill(len(self.structure), 0 - 1)"]},
+        {"when": "after", "at": "begins[c].append(i)", "label": "push", "do": ["let pos = upd(pos, i, len(begins[c]) - 1)"]},
+        {"when": "before", "at": "self.pairs.append(", "label": "pop",
+         "do": ["let b = G[i]", "let xb = lo5(R, b) + (hi3(R, b) - i)",
+                "assert b >= 0 and on3(R, b, i) and begin == OPEN[O[b]]",
+                "assert on5(R, b, xb) and xb < i and G[xb] == b and partner(R, b, xb) == i",
+                "assert 0 <= pos[xb] and pos[xb] < len(begins[begin]) and begins[begin][pos[xb]] == xb",
+                "let top = begins[begin][len(begins[begin]) - 1]", "let at = G[top]",
+                "assert at >= 0 and on5(R, at, top) and O[at] == O[b] and partner(R, at, top) >= i and top >= xb",
+                "assert implies(top != xb, at != b and partner(R, at, top) > i)",
+                "assert implies(top != xb, crossing(R[b][0], R[b][1], R[at][0], R[at][1]))",
+                "assert top == xb"]},
+    ]
+
+
+class db_from_string_painted:
+    target = "DotBracket.from_string"
+    params = {"sequence": "cstr", "structure": "cstr"}
+    ghost_params = {"R": "list[tuple[int,int,int]]", "O": "list[int]", "G": "list[int]"}
+    requires = [r.replace("self.structure", "structure") for r in PAINTED_REQ]
+    returns = "DotBracket"
+    raises = {"ValueError": "len(sequence) != len(structure)"}
+    ensures = ["fresh(result)", "result.sequence == sequence", "result.structure == structure",
+               "decoded_g(result.pairs, R, G, len(structure))"]
+    modifies = []
+    callee_variants = {"DotBracket.__post_init__": "painted"}
 
 
 class make_dot_bracket:
-    """C01: the text written for (regions, orders) carries OPEN/CLOSE[orders[a]] on the two strands of every stem and dots elsewhere"""
+    """C01: the text written for (regions, orders) carries OPEN/CLOSE[orders[a]] on the two strands of every stem and dots
+    elsewhere, and - the levels being proper - decodes to exactly the pairs of the regions (no IndexError, nothing lost,
+    nothing invented)"""
     target = "BpSeq.__make_dot_bracket"
     params = {"self": "BpSeq", "regions": "list[tuple[int,int,int]]", "orders": "list[int]"}
     requires = ["valid(self.entries)", "regions_match(self.entries, regions)",
-                "len(orders) >= len(regions)",
-                "forall(lambda a: implies(0 <= a and a < len(regions), 0 <= orders[a] and orders[a] < 30))"]
+                "len(orders) >= len(regions)", "proper(regions, orders)"]
     returns = "DotBracket"
     ensures = ["len(result.structure) == len(self.entries)",
                "painted(result.structure, regions, orders, len(regions))",
                "seq_of(self.entries, result.sequence)",
-               "fresh(result)"]
-    ensures_labels = {0: "length", 1: "painted", 2: "sequence", 3: "fresh"}
+               "fresh(result)",
+               "decoded(result.pairs, regions, len(self.entries))"]
+    ensures_labels = {0: "length", 1: "painted", 2: "sequence", 3: "fresh", 4: "decodes-to-the-regions-pairs"}
     raises = []
     modifies = []
     locals = {"structure": "cstr"}
+    callee_variants = {"DotBracket.from_string": "painted"}
     ghost_entry = ["forall a, b | use strands_apart(self.entries, regions, a, b) | assert implies(0 <= a and a < len(regions) and 0 <= b and b < len(regions) and a != b, "
                    "apart(lo5(regions, a), hi5(regions, a), lo5(regions, b), hi5(regions, b)) and "
                    "apart(lo5(regions, a), hi5(regions, a), lo3(regions, b), hi3(regions, b)) and "
                    "apart(lo3(regions, a), hi3(regions, a), lo3(regions, b), hi3(regions, b)))"]
+    ghost = [
+        {"when": "after", "at": "structure = [", "label": "G0", "do": ["let G = fill(len(sequence), 0 - 1)"]},
+        {"when": "after", "at": "structure[j - 1] = bracket[0]", "label": "G5", "do": ["let G = upd(G, j - 1, i)"]},
+        {"when": "after", "at": "structure[k - 1] = bracket[1]", "label": "G3", "do": ["let G = upd(G, k - 1, i)"]},
+        {"when": "before", "at": "return DotBracket.from_string", "label": "call", "do": ["let R = regions", "let O = orders"]},
+    ]
     loops = {
-        0: {"index": "a0", "inv": ["len(structure) == len(self.entries)", "painted(structure, regions, orders, a0)"]},
+        0: {"index": "a0", "inv": ["len(structure) == len(self.entries)",
+                                   "region_map(G, regions, len(self.entries), a0)",
+                                   "painted_g(structure, regions, orders, G)"]},
         1: {"decreases": "n", "inv": [
-            "len(structure) == len(self.entries)",
+            "len(structure) == len(self.entries) and len(G) == len(self.entries)",
             "0 <= n and n <= stem[2] and j == stem[0] + (stem[2] - n) and k == stem[1] - (stem[2] - n)",
-            "forall(lambda a, x: implies(0 <= a and a < i and lo5(regions, a) <= x and x <= hi5(regions, a), structure[x] == OPEN[orders[a]]))",
-            "forall(lambda a, x: implies(0 <= a and a < i and lo3(regions, a) <= x and x <= hi3(regions, a), structure[x] == CLOSE[orders[a]]))",
-            "forall(lambda x: implies(lo5(regions, i) <= x and x < j - 1, structure[x] == OPEN[orders[i]]))",
-            "forall(lambda x: implies(k - 1 < x and x <= hi3(regions, i), structure[x] == CLOSE[orders[i]]))",
-            "forall(lambda x: implies(0 <= x and x < len(structure) and forall(lambda a: implies(0 <= a and a < i, not on_strand(regions, a, x))) and not (lo5(regions, i) <= x and x < j - 1) and not (k - 1 < x and x <= hi3(regions, i)), structure[x] == '.'))",
+            "forall(lambda x: implies(0 <= x and x < len(G), G[x] == 0 - 1 or (0 <= G[x] and G[x] < i and on_strand(regions, G[x], x)) or (G[x] == i and ((lo5(regions, i) <= x and x < j - 1) or (k - 1 < x and x <= hi3(regions, i))))))",
+            "forall(lambda a, x: implies(0 <= a and a < i and 0 <= x and x < len(G) and on_strand(regions, a, x), G[x] == a))",
+            "forall(lambda x: implies((lo5(regions, i) <= x and x < j - 1) or (k - 1 < x and x <= hi3(regions, i)), G[x] == i))",
+            "painted_g(structure, regions, orders, G)",
         ]},
     }
 
@@ -423,6 +518,7 @@ CONTRACTS = {
     "DotBracket.from_string": db_from_string,
     "DotBracket.__post_init__": db_post_init,
     "DotBracket.__post_init__@painted": db_post_init_painted,
+    "DotBracket.from_string@painted": db_from_string_painted,
     "BpSeq.__stems_entries": stems_entries,
     "BpSeq.__make_dot_bracket": make_dot_bracket,
     "BpSeq.fcfs": fcfs,
